@@ -96,12 +96,86 @@ BaseDocs(d) ==
                     [i \in 1..34 |-> IF i \in {7, 9} THEN Rec(1, 0, 0, 0, <<16, 32>>) ELSE Rec(1, 0, 0, 0, <<17, 4096, 32>>)],     \* 32 of 34: not enough
                     <<Rec(3, 0, 0, 0, <<17, 17, 32>>)>> } }                                                                          \* duplicated leaf
 
-\* the trailing memory map: none, /proc/maps form or the brief form; two executable mappings
-\* exe = [8, 4096) and lib = [4096, 8192) (plus a non-executable one the parser must skip)
+\* ---- the trailing memory map
+\* A memory map is a list of lines: mapping entries ([start, limit) at a file offset, executable or not, of a file whose
+\* name is a list of parts: literal text or a reference $attr) and attribute lines "attr=value".  The documented rules
+\* (comments of legacy_profile.go and profile.go), as named operators:
+\*   Substitute     an attr=value line defines $attr for every LATER entry; all the attributes defined so far apply, not
+\*                  only the most recent one (the catalogue never assigns one attribute twice: which assignment wins
+\*                  then is not documented)
+\*   SkipNonExec    entries whose permissions lack x are skipped
+\*   MergeAdjacent  an entry that starts where the previous mapping ends, of the same file and (where both state one)
+\*                  at the consecutive file offset, is the same mapping split in two: the two are joined
+\*   MainFirst      the first mapping that is not a shared library is the main binary; it changes places with the top one
+\*   ExtendDown     an address no mapping covers but which lies within the file offset in front of a mapping belongs to
+\*                  it (its first part was not listed): the mapping is extended downwards to file offset 0
+\*   Fake           addresses still uncovered belong to one made-up mapping [0, max) at the end of the list
+\* (the 0x400000 rule for main binaries and the /anon_hugepage rule are kept clear of: no mapping of the catalogue has
+\* start - offset = 0x400000 or that name)
 Growth(doc) == doc.variant \in {"growthz", "growth", "fragmentationz"}
-MapForms == {"none", "procmaps", "brief", "split3", "offsetlib"}   \* split3: the executable listed as three adjacent pieces (to be joined again); offsetlib: the library listed from its second part only, with a file offset (extended downwards to cover the addresses in front of it)
-Docs(d) == UNION { { [doc |-> b, map |-> m] : m \in (IF b.fmt = "threadz" THEN MapForms \ {"none"} ELSE IF b.fmt \in {"javaheap", "javacontention", "javacpu"} THEN {"none"} ELSE MapForms) } : b \in BaseDocs(d) }
-MapOf(form, a) == IF form = "none" THEN "fake" ELSE IF a >= 8 /\ a < 4096 THEN "exe" ELSE IF a >= 4096 /\ a < 8192 THEN "lib" ELSE "fake"
+Java(doc) == doc.fmt \in {"javaheap", "javacontention", "javacpu"}
+Lit(s) == [ref |-> FALSE, s |-> s]
+Ref(n) == [ref |-> TRUE, s |-> n]
+Ent(s, l, o, x, f, so) == [k |-> "map", start |-> s, limit |-> l, off |-> o, x |-> x, file |-> f, shlib |-> so]
+Attr(n, v) == [k |-> "attr", name |-> n, value |-> v]
+ExeF == <<Lit("/bin/exe")>>
+LibF == <<Lit("/lib/libc.so.6")>>
+\* none; procmaps and brief: exe = [8, 4096), lib = [4096, 8192) and a non-executable entry (two syntaxes of one map);
+\* split3: the executable and the library each listed as three adjacent pieces (to be joined again); offsetlib: the
+\* library listed from its second part only, with a file offset (extended downwards to cover the addresses in front of
+\* it); split2: the library first, then the executable as two adjacent pieces (joined, then moved to the top);
+\* attrs: three attribute lines, each later entry naming its file through one of them - the first, the second and the
+\* last defined
+MapForms == {"none", "procmaps", "brief", "split3", "offsetlib", "split2", "attrs"}
+MapSrc(form) ==
+  CASE form = "none" -> <<>>
+    [] form \in {"procmaps", "brief"} -> <<Ent(8, 4096, 0, TRUE, ExeF, FALSE), Ent(12288, 16384, 8192, FALSE, ExeF, FALSE), Ent(4096, 8192, 0, TRUE, LibF, TRUE)>>
+    [] form = "offsetlib" -> <<Ent(8, 4096, 0, TRUE, ExeF, FALSE), Ent(6144, 8192, 2048, TRUE, LibF, TRUE)>>
+    [] form = "split3" -> <<Ent(8, 17, 0, TRUE, ExeF, FALSE), Ent(17, 32, 9, TRUE, ExeF, FALSE), Ent(32, 4096, 24, TRUE, ExeF, FALSE),   \* 16, 17 and 32 fall into the first, second and third piece
+                            Ent(12288, 16384, 8192, FALSE, ExeF, FALSE),
+                            Ent(4096, 4097, 0, TRUE, LibF, TRUE), Ent(4097, 6144, 1, TRUE, LibF, TRUE), Ent(6144, 8192, 2048, TRUE, LibF, TRUE)>>
+    [] form = "split2" -> <<Ent(4096, 8192, 0, TRUE, LibF, TRUE), Ent(8, 32, 0, TRUE, ExeF, FALSE), Ent(32, 4096, 24, TRUE, ExeF, FALSE),
+                            Ent(12288, 16384, 8192, FALSE, ExeF, FALSE)>>
+    [] form = "attrs" -> <<Attr("build", "/b"), Attr("source", "/s"),
+                           Ent(8, 4096, 0, TRUE, <<Ref("build"), Lit("/bin/exe")>>, FALSE),
+                           Attr("libs", "/usr/lib"),
+                           Ent(12288, 16384, 8192, FALSE, <<Ref("build"), Lit("/bin/exe")>>, FALSE),
+                           Ent(4096, 8192, 0, TRUE, <<Ref("source"), Lit("/lib/libc.so.6")>>, TRUE),
+                           Ent(8192, 12288, 0, TRUE, <<Ref("libs"), Lit("/libm.so.6")>>, TRUE)>>
+Docs(d) == UNION { { [doc |-> b, map |-> m] : m \in (IF b.fmt = "threadz" THEN MapForms \ {"none"} ELSE IF Java(b) THEN {"none"} ELSE MapForms) } : b \in BaseDocs(d) }
+
+\* Substitute: the value of $n for line i of the map (the reference stays as it is if nothing defined it)
+ValueOf(src, i, n) == LET defs == {j \in 1..(i - 1) : src[j].k = "attr" /\ src[j].name = n}
+                      IN IF defs = {} THEN "$" \o n ELSE src[CHOOSE j \in defs : \A j2 \in defs : j <= j2].value
+FileOf(src, i) == FoldLeft(LAMBDA acc, p : acc \o (IF p.ref THEN ValueOf(src, i, p.s) ELSE p.s), "", src[i].file)
+\* SkipNonExec
+ExecMaps(src) == LET idx == SelectSeq([i \in DOMAIN src |-> i], LAMBDA i : src[i].k = "map" /\ src[i].x)
+                 IN [n \in DOMAIN idx |-> [file |-> FileOf(src, idx[n]), start |-> src[idx[n]].start, limit |-> src[idx[n]].limit,
+                                           off |-> src[idx[n]].off, shlib |-> src[idx[n]].shlib]]
+Adjacent(a, b) == a.file = b.file /\ a.limit = b.start /\ (a.off = 0 \/ b.off = 0 \/ a.off + (a.limit - a.start) = b.off)
+MergeAdjacent(ms) == FoldLeft(LAMBDA acc, m : IF acc # <<>> /\ Adjacent(acc[Len(acc)], m) THEN [acc EXCEPT ![Len(acc)].limit = m.limit] ELSE Append(acc, m), <<>>, ms)
+MainFirst(ms) == LET mains == {i \in DOMAIN ms : ~ms[i].shlib} IN
+                 IF mains = {} THEN ms
+                 ELSE LET i == CHOOSE x \in mains : \A y \in mains : x <= y
+                      IN [ms EXCEPT ![1] = ms[i], ![i] = ms[1]]
+\* ExtendDown and Fake: the addresses are looked up in order of appearance; at holds <<address, index>> (0: none)
+Covers(m, a) == m.start <= a /\ a < m.limit
+Below(m, a) == m.off # 0 /\ m.start - m.off <= a /\ a < m.start
+FirstOf(S) == IF S = {} THEN 0 ELSE CHOOSE x \in S : \A y \in S : x <= y
+Place(st, a) ==
+  LET i == FirstOf({x \in DOMAIN st.ms : Covers(st.ms[x], a)})
+      j == FirstOf({x \in DOMAIN st.ms : Below(st.ms[x], a)})
+  IN IF \E p \in st.at : p[1] = a THEN st
+     ELSE IF i # 0 THEN [st EXCEPT !.at = @ \cup {<<a, i>>}]
+     ELSE IF j # 0 THEN [ms |-> [st.ms EXCEPT ![j].start = @ - st.ms[j].off, ![j].off = 0], at |-> st.at \cup {<<a, j>>}]
+     ELSE [st EXCEPT !.at = @ \cup {<<a, 0>>}]
+Flat(stacks) == FoldLeft(LAMBDA acc, s : acc \o s, <<>>, stacks)
+Placed(form, stacks) == FoldLeft(Place, [ms |-> MainFirst(MergeAdjacent(ExecMaps(MapSrc(form)))), at |-> {}], Flat(stacks))
+FakeMap == [file |-> "", start |-> 0, limit |-> 0 - 1, off |-> 0, shlib |-> FALSE]      \* limit -1 stands for the largest address
+MapListExpected(form, stacks) == LET st == Placed(form, stacks) IN IF \E p \in st.at : p[2] = 0 THEN Append(st.ms, FakeMap) ELSE st.ms
+MapIdxExpected(form, stacks) == LET st == Placed(form, stacks)
+                                    ix(a) == LET p == CHOOSE p \in st.at : p[1] = a IN IF p[2] = 0 THEN Len(st.ms) + 1 ELSE p[2]
+                                IN [i \in DOMAIN stacks |-> [j \in DOMAIN stacks[i] |-> ix(stacks[i][j])]]
 PeriodExpected(doc) ==
   CASE doc.fmt = "gocount" -> 1
     [] doc.fmt = "threadz" -> 1
@@ -112,7 +186,7 @@ PeriodExpected(doc) ==
 
 StacksExpected(doc) ==
   CASE doc.fmt \in {"gocount", "heap", "contention"} -> [i \in DOMAIN doc.recs |-> AdjAll(doc.recs[i].stack)]
-    [] doc.fmt \in {"javaheap", "javacontention", "javacpu"} -> [i \in DOMAIN doc.recs |-> doc.recs[i].stack]
+    [] Java(doc) -> [i \in DOMAIN doc.recs |-> doc.recs[i].stack]
     [] doc.fmt = "threadz" -> LET real == SelectSeq(doc.recs, LAMBDA r : r.c = 1) IN [i \in DOMAIN real |-> DropDupLeaf(AdjCallers(real[i].stack))]
     [] doc.fmt = "cpu" -> LET adj == [i \in DOMAIN doc.recs |-> AdjCallers(doc.recs[i].stack)]
                               str == StripSignalFrame(adj)
@@ -147,7 +221,9 @@ Init == pc = "gen" /\ doc = <<>> /\ map = ""
 Gen == pc = "gen" /\ (\E x \in Docs(0) : doc' = x.doc /\ map' = x.map) /\ pc' = "emit"
 Finish == pc = "emit" /\ pc' = "end"
           /\ (Emit => PrintT(ToJson([doc |-> doc, map |-> map, stacks |-> StacksExpected(doc), values |-> ValuesExpected(doc), period |-> PeriodExpected(doc),
-                                     mappings |-> [i \in DOMAIN StacksExpected(doc) |-> [j \in DOMAIN StacksExpected(doc)[i] |-> MapOf(map, StacksExpected(doc)[i][j])]]])))
+                                     mapsrc |-> MapSrc(map),
+                                     maplist |-> IF Java(doc) THEN <<>> ELSE MapListExpected(map, StacksExpected(doc)),
+                                     mapidx |-> IF Java(doc) THEN <<>> ELSE MapIdxExpected(map, StacksExpected(doc))])))
           /\ UNCHANGED <<doc, map>>
 Next == Gen \/ Finish
 Spec == Init /\ [][Next]_<<pc, doc, map>>
@@ -164,4 +240,13 @@ AddressesFromInput == pc = "emit" => LET st == StacksExpected(doc)
                                      IN \A i \in DOMAIN st : \A j \in DOMAIN st[i] : \E k \in DOMAIN real[i].stack : k >= j /\ real[i].stack[k] \in {st[i][j], st[i][j] + 1}
 \* no rule ever empties a stack that had frames, and the leaf survives
 LeafKept == pc = "emit" => \A i \in DOMAIN StacksExpected(doc) : Len(StacksExpected(doc)[i]) >= 1
+\* the memory-map rules: every expected address lies inside the mapping it is attributed to; no two neighbours of the
+\* expected list are still the halves of one split mapping; a main binary, if the map lists one, is on top
+MappingsCoverAddresses == (pc = "emit" /\ ~Java(doc)) =>
+   LET st == StacksExpected(doc)
+       ml == MapListExpected(map, st)
+       ix == MapIdxExpected(map, st)
+   IN /\ \A i \in DOMAIN st : \A j \in DOMAIN st[i] : LET m == ml[ix[i][j]] IN m.start <= st[i][j] /\ (m.limit = 0 - 1 \/ st[i][j] < m.limit)
+      /\ \A n \in 1..(Len(ml) - 1) : ~Adjacent(ml[n], ml[n + 1])
+      /\ ((\E n \in DOMAIN ml : ~ml[n].shlib /\ ml[n].file # "") => ~ml[1].shlib)
 =============================================================================
